@@ -29,6 +29,10 @@ RE_MSG_WORD = re.compile(r'found: [“"](.*?)[”"] \[([0-9a-f]{8})\]', re.S)
 #   generation
 # ---------------------------------------------------------------------
 
+# plain-text characters that stand for a control symbol of the source
+SYMBOL_TARGETS = {'%': '\\%', '#': '\\#'}
+
+
 def _opt_list(rng, pool):
     return ','.join(rng.sample(pool, rng.randrange(1, 3)))
 
@@ -215,6 +219,11 @@ def gen_plan(rng, idx):
                     for w in f['w']:
                         if w not in targets and rng.random() < 0.4:
                             targets.append(w)
+    if not plain_input and rng.random() < 0.4 and sum(
+            docgen.doc_text(d).count('\\%') for d in docs) == 1:
+        # a character that stands for a control symbol of the source (the '%'
+        # of '\%'): the match maps onto a backslash that starts no macro name
+        targets.append(rng.choice(['%', '#']))
     eol = []
     if route != 'html' and transport != 'textgears':
         for d in docs:
@@ -648,14 +657,17 @@ def evaluate(plan):
                     k = seen.get(w, 0)
                     seen[w] = k + 1
                     src = -1
+                    srcw = SYMBOL_TARGETS.get(w, w)
                     for _ in range(k + 1):
-                        src = tex.find(w, src + 1)
+                        src = tex.find(srcw, src + 1)
                         if src < 0:
                             break
                     if src < 0:
                         return core.harness('target %r not in source' % w)
                     if k:
                         probes['identical_parts'] = 1
+                    if w in SYMBOL_TARGETS:
+                        probes['match_on_control_symbol'] = 1
                     exp.append((w, src, len(w)))
                     if w in dups:
                         exp.append((w, src, len(w)))
@@ -687,6 +699,13 @@ def evaluate(plan):
     got = collect_reports(plan, obs, us)
     if isinstance(got, str):
         return viol('report-format', problem=got)
+    for reps in got:
+        for r in reps:
+            # a match on the character of a control symbol starts at the
+            # backslash; marking the backslash alone (as shipped) or the
+            # whole symbol are both "that very word": one canonical length
+            if r.get('word') in SYMBOL_TARGETS and r.get('length') == 2:
+                r['length'] = 1
     for ui, (label, tex, eff) in enumerate(us):
         reps = got[ui]
         # order: by position in the LaTeX file
@@ -1002,7 +1021,9 @@ def collect_reports(plan, obs, us):
                                                  '%s, row is %d'
                                                  % (tl and tl.group(1), n))
                     elif w is not None:
-                        if hl != w:
+                        if hl != w and not (
+                                w in SYMBOL_TARGETS and hl in (
+                                    SYMBOL_TARGETS[w], SYMBOL_TARGETS[w][0])):
                             r['problems'].append('highlight: marked %r instead '
                                                  'of the flagged word' % hl)
                         if not tl or int(tl.group(1)) != n:
@@ -1043,7 +1064,9 @@ def collect_reports(plan, obs, us):
                     r = {'offset': (starts[n - 1] + c) if c >= 0 else -1,
                          'length': len(hl), 'word': w, 'problems': [],
                          'overlap': True, 'line': n}
-                    if w is not None and '+' not in w and hl != w:
+                    if w is not None and '+' not in w and hl != w and not (
+                            w in SYMBOL_TARGETS and hl in (
+                                SYMBOL_TARGETS[w], SYMBOL_TARGETS[w][0])):
                         r['problems'].append('highlight: overlap marked %r '
                                              'instead of the flagged word' % hl)
                     res[ui].append(r)
